@@ -59,6 +59,7 @@ type ctx struct {
 	fileDefs     []string          // names used by the cases of the current file, in first-use order
 	fileDefSet   map[string]bool
 	streams      map[string]*caseStream // parked case streams (see withStream)
+	stateProj    string                 // Coq term of type sproj (Corr/Exec.v): which part of the state the model comparison looks at ("" = all)
 }
 
 // caseStream: a second kind of Coq case (own header / case type / mismatch expression) written to its own files
@@ -159,6 +160,14 @@ func (c *ctx) flush() {
 	}
 	if me == "" {
 		me = "mismatches cases"
+	}
+	if c.stateProj != "" {
+		// narrow state projection: xmismatches (pr) cases -> xmismatches_s (pr) (sp) cases; hmismatches cases -> hmismatches_s (sp) cases
+		if strings.HasPrefix(me, "xmismatches (") && strings.HasSuffix(me, ") cases") {
+			me = "xmismatches_s (" + strings.TrimSuffix(strings.TrimPrefix(me, "xmismatches ("), ") cases") + ") (" + c.stateProj + ") cases"
+		} else if me == "hmismatches cases" {
+			me = "hmismatches_s (" + c.stateProj + ") cases"
+		}
 	}
 	for _, n := range c.fileDefs {
 		sb.WriteString(c.defText[n])
